@@ -507,6 +507,9 @@ fn spawn_async_ao_list_in_task'''),
         ('quoted-piece-starts-new-field', 'brush-core/src/expansion.rs', 'ExpansionPiece::Unsplittable(_) => current_field.0.push(piece),', 'ExpansionPiece::Unsplittable(_) => fields.push(WordField(vec![piece])),'),
     ],
     'U13': [
+        ('second-unset-of-a-local-drops-the-placeholder', 'brush-core/src/env.rs', "            if unset_result.is_some() {\n                // If we end up finding a local in the top-most local frame, then we replace\n                // it with a placeholder.\n                if matches!(scope_type, EnvironmentScope::Local) && local_count == 1 {", "            if let Some(removed) = &unset_result {\n                if matches!(scope_type, EnvironmentScope::Local) && local_count == 1 && removed.is_readonly() {"),
+        ('placeholder-for-any-local-frame', 'brush-core/src/env.rs', "if matches!(scope_type, EnvironmentScope::Local) && local_count == 1 {", "if matches!(scope_type, EnvironmentScope::Local) {"),
+        ('unset-continues-past-the-innermost-hit', 'brush-core/src/env.rs', "                return Ok(unset_result);\n            }\n        }\n\n        Ok(None)", "            }\n        }\n\n        Ok(None)"),
         ('lookup-outermost-first', 'brush-core/src/env.rs', '''        // Look through scopes, from the top of the stack on down.
         for (scope_type, map) in self.scopes.iter().rev() {
             if let Some(var) = map.get(name.as_ref()) {
@@ -514,9 +517,7 @@ fn spawn_async_ao_list_in_task'''),
         for (scope_type, map) in self.scopes.iter() {
             if let Some(var) = map.get(name.as_ref()) {
                 return Some((*scope_type, var));'''),
-        ('pop-keeps-scope-on-mismatch', 'brush-core/src/env.rs', '''        match self.scopes.pop() {
-            Some((actual_scope_type, _)) if actual_scope_type == expected_scope_type => Ok(()),''', '''        match self.scopes.last() {
-            Some((actual_scope_type, _)) if *actual_scope_type == expected_scope_type => { self.scopes.pop(); Ok(()) }'''),
+        ('pop-without-scope-is-ok', 'brush-core/src/env.rs', "            None => Err(error::ErrorKind::MissingScope.into()),", "            None => Ok(()),"),
         ('readonly-unset-allowed', 'brush-core/src/env.rs', '            Some(true) => Err(error::ErrorKind::ReadonlyVariable.into()),', '            Some(true) => Ok(map.unset(name)),'),
         ('new-starts-with-local-scope', 'brush-core/src/env.rs', 'scopes: vec![(EnvironmentScope::Global, ShellVariableMap::default())],', 'scopes: vec![(EnvironmentScope::Local, ShellVariableMap::default())],'),
         ('push-reuses-top-scope-kind', 'brush-core/src/env.rs', 'self.scopes.push((scope_type, ShellVariableMap::default()));', 'self.scopes.push((EnvironmentScope::Local, ShellVariableMap::default()));'),
